@@ -17,7 +17,7 @@ CLAIMED = {
     "C02": ("exploration",
             "Same simulated fan-out with thresholds 0..n+1, shared sink ids, distinct error values and a canceller task placed by the scheduler at "
             "any step; Status and error are compared with what the recorded traversals allow (exact when not cancelled, sub-multiset when cancelled; "
-            "error iff a threshold is missed; context error wrapped when the dispatch ended early).",
+            "error iff a threshold is missed; context error wrapped when the dispatch ended early). Some runs add tasks that set the thresholds concurrently (also on an event type first touched during the run): the verdict must match one of the thresholds that could be in force.",
             "Sends to an event type the Broker has never been told about are outside the iff-clause (documented error).",
             "deterministic simulation: seeded scheduler + cancellation fault at every protocol step + model oracle", "4 C02"),
     "C03": ("exploration",
@@ -37,7 +37,7 @@ CLAIMED = {
     "C05": ("exploration",
             "Generated histories of (mostly malformed) registrations executed under the simulator; acceptance is compared with the statement's predicate "
             "(reference model); for every failing call the observable state (IsAnyPipelineRegistered, deliveries of probe Sends, removability of every "
-            "node on a replayed copy) is compared before/after; concurrently, Sends overlapping failing registrations are checked by linearizability.",
+            "node on a replayed copy) is compared before/after; concurrently, Sends overlapping failing registrations are checked by linearizability. Registrations carry options of either kind (node policy on a pipeline call and vice versa must be ignored) and re-register the same node instance.",
             "Pure input clauses (the predicate) are decided by seeded generation inside the simulated runs; the schedule-dependent clause is the "
             "concurrent observer.",
             "deterministic simulation: seeded histories + model oracle + concurrent observer (porcupine)", "4 C05"),
@@ -52,7 +52,7 @@ CLAIMED = {
     "C07": ("exploration",
             "Policy sequences (allow/deny/default/invalid) interleaved with removals against the model, probe Sends after calls; concurrently, "
             "overwriting registrations (each version has a unique marker node) race with Sends and the per-pipeline deliveries are checked for "
-            "linearizability (exactly one version, the new one after the overwrite returned) with porcupine.",
+            "linearizability (exactly one version, the new one after the overwrite returned) with porcupine. Same-instance re-registrations and options of the other kind are part of the sequences.",
             "sync.Map.Range is emulated at per-visit granularity (any behaviour its contract allows).",
             "deterministic simulation: seeded scheduler over sync.Map range/store + porcupine", "4 C07"),
     "C11": ("exploration",
@@ -80,14 +80,14 @@ CLAIMED = {
             "Registry states reached by generated histories (several types, shared nodes, removed and overwritten pipelines); Broker.Reopen is called "
             "with no failing node and with each single node of a registered pipeline failing in turn (chosen from the tape); every node object bound "
             "into a registered pipeline must be reopened, a failure must be carried by the returned error. A second scenario issues 2-3 overlapping "
-            "Reopen calls: each call must itself reach every node (invocations are attributed to the calling task) and carry the failure.",
+            "Reopen calls: each call must itself reach every node (invocations are attributed to the calling task) and carry the failure; contexts are live, cancelled or expired.",
             "Iteration order over event types is a seeded choice (map range rewritten).",
             "deterministic simulation: seeded registry histories + single-node fault injection", "4 C20"),
     "C08": ("exploration",
             "One FileSink, 1-8 writer tasks, Reopen and logrotate-style external renames, clock advances around MaxDuration, MaxBytes 0..300, "
             "MaxFiles 0..3, TimestampOnlyOnRotate; every os call of the sink goes through a wrapper over the real file system that records each "
             "write(2) as ground truth. Oracle: each acknowledged event is exactly one whole write, no partial or stray writes, real-time order of "
-            "acknowledgements equals file order, a missing file implies MaxFiles>0 and the remaining files are the newest, files renamed away keep "
+            "acknowledgements equals file order, rotated names ascend in creation order, a missing file implies MaxFiles>0 and the remaining files are the newest, files renamed away keep "
             "their content, every inode's content equals the recorded writes. The crash mode stops the scheduler at a tape-chosen step (process "
             "kill: completed system calls persist) and evaluates the same oracle with in-flight calls allowed zero or one whole write; for one "
             "crash run in 40 the same schedule is replayed with the crash at EVERY scheduler step (fault enumeration for that schedule).",
@@ -99,14 +99,14 @@ CLAIMED = {
             "pointer, value, slice, map, *string, []string) with a unique canary in every leaf; overrides over {public,sensitive,secret} x "
             "{none,redact,encrypt,hmac}; wrapper present / absent / keyless / failing for a content-addressed subset of plaintexts. A lock-step "
             "walk of input and output checks each protected leaf (redacted, decrypts under the wrapper in force, or equals an independently computed "
-            "HMAC) plus a canary scan of the rendered event; any injected failure must give (nil, err).",
+            "HMAC) plus a canary scan of the rendered event; any injected failure must give (nil, err). Overrides and IgnoreTypes are replaced between events of one run; canaries include look-alikes of the redaction / ciphertext prefixes.",
             "Mostly input generation (stated honestly in DESIGN); the fault-dependent clause is the failing wrapper that fails mid-walk. Shapes outside "
             "the statement's grammar (arrays, []interface{} of strings) are not generated.",
             "deterministic simulation harness: seeded shape/config generation + wrapper fault injection + lock-step oracle", "4 C09"),
     "C10": ("exploration",
             "The C09 payload space: an independent deep copy built from the same recorded draws is compared with the input after Process (also after "
             "failures); output shape, public and non-string values, lengths and keys are compared in lock-step; all-none overrides must return the very "
-            "same event. Schedule part: the filter runs as a non-root node of one pipeline while an observer node of a second pipeline and the Send "
+            "same event (also when the payload carries event info or a rotation request). Schedule part: the filter runs as a non-root node of one pipeline while an observer node of a second pipeline and the Send "
             "caller compare the event they hold with the snapshot at six scheduler-chosen instants.",
             "copystructure is trusted per step (its internals are not interleaved).",
             "deterministic simulation: seeded scheduler interleaving an observer pipeline with the filter + snapshot oracle", "4 C10"),
@@ -123,7 +123,7 @@ CLAIMED = {
             "JSON-value generator (nested maps, slices, structs, control and invalid UTF-8 bytes, large ints, NaN/Inf, channels, funcs) against a "
             "round-trip oracle (one line, exactly three members, created_at/event_type/payload decode back, payload untouched, unencodable gives "
             "(nil, err) and nothing stored, predicate outcomes); the format table is exercised by 2-8 tasks and checked for last-writer-wins "
-            "linearizability with porcupine and for races with the race binary; two pipelines format one event concurrently.",
+            "linearizability with porcupine and for races with the race binary; two pipelines format one event concurrently; pre-occupied format slots must be replaced and a stored value must not change afterwards.",
             "The formatter clauses are input generation; only the format-table and two-formatter clauses depend on the schedule.",
             "deterministic simulation: seeded scheduler + race detector + porcupine for the table; seeded generation for the formatters", "4 C14"),
     "C15": ("exploration",
@@ -131,28 +131,28 @@ CLAIMED = {
             "FileSinkModel after every step: a write rotates iff bytes-since-open >= MaxBytes>0 or age > MaxDuration>0 (age bounded by the harness's "
             "clock reads before/after the call; straddling cases are counted, not judged), never with both unset; active-file name, rotated names with "
             "strictly increasing timestamps in creation order, modes, directory creation, at most MaxFiles rotated files right after a rotation, "
-            "removals only inside the name space, decoy files survive, BytesWritten matches.",
+            "removals only inside the name space, decoy files survive, BytesWritten matches; the directory is removed and a pre-existing active file with another mode is present in some histories.",
             "The fake clock starts at a 2026 epoch (19-digit UnixNano) so that lexicographic pruning order is the realistic one.",
             "deterministic simulation: fake clock with seeded ticks + disk seam + reference model", "4 C15"),
     "C16": ("exploration",
             "Byte strings incl. empty and non-UTF-8 canaries, salt/info on filter and event, event id present/absent; every encrypted value must "
             "decrypt under the wrapper in force (filter's or the per-event wrapper, derived twice to check determinism), every HMAC equals an "
             "independent HKDF-SHA256/HMAC-SHA256 computation; Rotate() and rotation payloads between events; concurrently, senders and a rotator "
-            "task interleave at the filter's lock operations and each value must verify under exactly one key version that could be in force.",
+            "task interleave at the filter's lock operations and each value must verify under exactly one key version that could be in force. Per-event options must reach every depth of the payload (map -> slice -> map -> struct).",
             "AEAD nonces come from crypto/rand and never enter a decision.",
             "deterministic simulation: seeded scheduler over the filter's lock points + independent crypto oracle", "4 C16"),
     "C18": ("exploration",
             "Configurations (source nil/empty/valid, schema unset/empty/set, format unset/json/text/invalid, predicate outcomes) x payload kinds "
             "(plain, ID, Data, both, empty ID) with a harness signer that records its input and fails on plan, listed/unlisted types, Rotate between "
             "events; the stored document is parsed back and compared member by member; serialized must decode to the bytes given to the signer and "
-            "serialized_hmac to the current signer's result; a failed signature must forward and store nothing.",
+            "serialized_hmac to the current signer's result; a failed signature must forward and store nothing; a signer installed after construction and nil Data() are covered.",
             "Mostly input generation; the fault-dependent clause is the failing signer.",
             "deterministic simulation harness: seeded configuration generation + signer fault injection", "4 C18"),
     "C19": ("exploration",
             "1-4 pipelines composed from the stock catalogue (Filter, JSON formatters, cloudevents, encrypt, gated wired to the Broker, file, "
             "writer and channel sinks) with shared nodes and formatters in mid-pipeline, 2-8 sender tasks, control tasks calling Broker.Reopen, "
             "encrypt Rotate, cloudevents Rotate and pauses that force time rotation. Race binary: any race report with a library frame; plain "
-            "binary: no panic, no deadlock, every line written by writer/file sinks is one whole JSON document, no secret plaintext behind the "
+            "binary: no panic, no deadlock, every line written by writer/file sinks (incl. FileSinks on stdout/stderr) is one whole JSON document, no secret plaintext behind the "
             "encrypt filter.",
             "The schedule digest of these runs is not compared across processes (Go's map order inside copystructure/reflect decides how many lock "
             "steps come first); violations still replay by signature.",
